@@ -26,6 +26,8 @@ import (
 	"crypto/x509"
 
 	"github.com/rs/zerolog"
+	zlog "github.com/rs/zerolog/log"
+	"github.com/sassoftware/relic/v8/cmdline/shared"
 	"github.com/sassoftware/relic/v8/config"
 	"github.com/sassoftware/relic/v8/server"
 	"github.com/sassoftware/relic/v8/signers"
@@ -183,6 +185,16 @@ func clientYAML(c *certs.Cert) string {
 }
 
 var reSite = regexp.MustCompile(`(?m)^github\.com/sassoftware/relic/v8/([^\s(]+(?:\([^)]*\))?[^\s(]*)\(`)
+var reSiteLog = regexp.MustCompile(`github\.com/sassoftware/relic/v8/([^\s(\\]+(?:\([^)]*\))?[^\s(\\]*)\(`)
+
+type syncBuffer struct {
+	mu sync.Mutex
+	b  bytes.Buffer
+}
+
+func (s *syncBuffer) Write(p []byte) (int, error) { s.mu.Lock(); defer s.mu.Unlock(); return s.b.Write(p) }
+func (s *syncBuffer) String() string              { s.mu.Lock(); defer s.mu.Unlock(); return s.b.String() }
+
 var reGoroutine = regexp.MustCompile(`(?m)^goroutine \d+ \[running\]`)
 
 func siteOf(stderr string) (string, string) {
@@ -418,10 +430,16 @@ func Run(args []string) {
 				case el > 15*time.Second:
 					key["kind"], key["site"] = "slow", c.Type
 					r.Fail(key, c, "%s: took %v", desc, el)
-				default:
-					if strings.Contains(resultLine, "recovered-panic") {
-						r.Count("recovered_panics_in_request_goroutine", 1)
+				case strings.Contains(resultLine, "recovered-panic"):
+					site := "unknown"
+					for _, l := range strings.Split(so.String(), "\n") {
+						if strings.HasPrefix(l, "RECOVERED ") {
+							site = strings.TrimPrefix(l, "RECOVERED ")
+						}
 					}
+					key["kind"], key["site"] = "recovered-panic", site
+					r.Fail(key, c, "%s: the request goroutine panicked in %s (recovered by the server, answered %s)", desc, site, resultLine)
+				default:
 					r.Count("outcome_"+strings.Fields(resultLine)[1], 1)
 				}
 			}
@@ -492,10 +510,15 @@ func Child(args []string) {
 		}
 		out("ok bytes=%d", n)
 	case "server":
+		// the access log is the only place that tells a recovered panic (it carries a stack) from an ordinary error
+		var logBuf syncBuffer
+		zerolog.SetGlobalLevel(zerolog.InfoLevel)
+		zlog.Logger = zerolog.New(&logBuf)
 		cfg, err := config.ReadFile(filepath.Join(wdir, "relic.yml"))
 		if err != nil {
 			panic(err)
 		}
+		shared.CurrentConfig = cfg // the serve command's global, read by the audit publisher
 		srv, err := server.New(cfg)
 		if err != nil {
 			panic(err)
@@ -539,11 +562,31 @@ func Child(args []string) {
 		b, _ := io.ReadAll(io.LimitReader(resp.Body, 1<<20))
 		resp.Body.Close()
 		time.Sleep(100 * time.Millisecond) // helper goroutines of the request
-		rec := ""
-		if resp.StatusCode == 500 && bytes.Contains(bytes.ToLower(b), []byte("panic")) {
-			rec = " recovered-panic"
+		_ = b
+		if l := logBuf.String(); strings.Contains(l, "\"stack\":") {
+			site := "unknown"
+			for _, m := range reSiteLog.FindAllStringSubmatch(l, -1) {
+				if !strings.HasPrefix(m[1], "internal/zhttp") {
+					site = m[1]
+					break
+				}
+			}
+			fmt.Printf("RECOVERED %s\n", site)
+			if os.Getenv("VERIF_DEBUG") != "" {
+				fmt.Println(l)
+			}
+			out("status-%d recovered-panic", resp.StatusCode)
 		}
-		out("status-%d%s", resp.StatusCode, rec)
+		out("status-%d", resp.StatusCode)
 	}
 	out("skip unknown-entry")
+}
+
+// World: vh malformed-world <dir> — writes the configuration the child processes use (for replaying single cases)
+func World(args []string) {
+	os.MkdirAll(args[0], 0700)
+	cl := certs.New(certs.Opt{CN: "malformed client", EKU: []x509.ExtKeyUsage{x509.ExtKeyUsageClientAuth}}, nil)
+	pipelinex.NewWorld(args[0], []string{"rsa2048"}, clientYAML(cl))
+	os.WriteFile(filepath.Join(args[0], "client.pem"), []byte(cl.PEM()), 0600)
+	fmt.Println("RESULT ok")
 }
